@@ -22,6 +22,8 @@ CLAIMS = {
          "trusts rustc's const evaluator and MIR; RFC 8259 / UTF-8 / UTF-16 definitions encoded in sa/oracles.py"),
  "C12": ("latch, flag and validation structure of the lazy iterators decided on the MIR: `ending` tested first and stored on every terminal exit (dominance), constructor flags (safe=true, unchecked/new_inner=false), validating skipper selected under skip_strict (flag-specialised reachability), UTF-8 verdict checked on the first step, raw span bounds taken from the reader index around the skip. Item contents and counts are NOT decided",
          "trusts rustc's MIR/callee resolution; class-hierarchy edges for Reader/JsonInput"),
+ "C13": ("structural necessary conditions decided on the current tree: LazyRaw typestate (constructed only from an existing LazyRaw or on the non-literal edge of a first-byte dispatch of the same text; first-byte value-set on the CFG), verbatim emission through the token channel (both ends use the same constant, the raw emitter reaches no escaping routine on direct/class-hierarchy edges), ParseStatus->HasEsc total, quote-stripping fast path only under no_escaped(), escape status stored on every path that has seen a backslash in both string skippers, borrowed-to-owned conversion derives every result from the source's raw text. Accessor results and mutation histories are NOT decided",
+         "trusts rustc's MIR/callee resolution and const evaluation of the token strings"),
  "C14": ("structural necessary conditions decided on the current tree: no non-validating skipper reachable from checked get/get_many/get_by_schema (flag-specialised call-graph reachability) and the non-validating primitives confined to the non-validating family (who-may-call); every Ok return on the byte-carrier edge passes from_utf8 over the whole traversed prefix input[..index] (must-pass-through + provenance of the validated slice); need_utf8_valid() true exactly for byte-typed carriers; \\u digits decoded by the validating skipper; raw spans from the reader indices around the skip; one-fraction discipline of the number skipper. That the validating skipper accepts only the grammar is NOT decided",
          "trusts rustc's MIR/callee resolution; class-hierarchy edges for the sealed Reader/JsonInput/Index traits"),
  "C18": ("static protocol obligations of the publish-once caches decided on the MIR of the current tree (weak-CAS discipline, hand-over type agreement, loser cleanup and returned pointer, owner clone/drop pairing, memory orderings); each is a necessary condition of C18; behaviour under interleavings is NOT decided",
